@@ -388,11 +388,16 @@ func c19Scenarios(maxLen int) []*concScenario {
 
 func c19Run(c *core.Ctx, args []string) {
 	c.Res.Level = "model_checking"
-	c.Res.Rule = "for two concurrent pings (IPv4+IPv4 and IPv4+IPv6, timeout 2s) and every sequence of <=2 (thorough <=3) frames from {reply(id1), reply(id2), reply(foreign id), request(id1), 7-byte reply(id1), id1 in a message typed with the other family's echo-reply number, reply(id1) from another source address, reply(id1) without data} delivered by one packet-loop thread (ids are read from the captured requests; WriteTo and the timer firing are scheduling points): stateless DFS over all schedules up to the deviation bound. Oracle per execution: a request whose matching reply was parsed before its timer fired must complete with nil, a request that never had a matching reply must return ErrTimeout, identifiers distinct, no panic, no waiter left; plus 12 scenarios in which the first or second transmission fails and 2 scenarios with four concurrent pings one of whose transmissions fails (the send-error path must not leave a waiter behind). distinct = distinct observation vectors"
+	c.Res.Rule = "for two concurrent pings (IPv4+IPv4 and IPv4+IPv6, timeout 2s) and every sequence of <=2 (thorough <=3) frames from {reply(id1), reply(id2), reply(foreign id), request(id1), 7-byte reply(id1), id1 in a message typed with the other family's echo-reply number, reply(id1) from another source address, reply(id1) without data} delivered by one packet-loop thread (ids are read from the captured requests; WriteTo and the timer firing are scheduling points): stateless DFS over all schedules up to the deviation bound. Oracle per execution: a request whose matching reply was parsed before its timer fired must complete with nil, a request that never had a matching reply must return ErrTimeout, identifiers distinct, no panic, no waiter left; plus 12 scenarios in which the first or second transmission fails and 2 scenarios with four concurrent pings one of whose transmissions fails (the send-error path must not leave a waiter behind); the scenarios with at most one frame are explored again under the race detector (bound 1). distinct = distinct observation vectors"
 	c.Res.Assumptions = []string{"a reply delivered after the timer fired but before the pinging goroutine ran may legitimately complete the ping or not (both accepted)", "send errors: only 'the first/second transmission fails' is injected, as a one-step environment deviation", "a reply of the other address family carrying the right identifier is not in the alphabet (the statement does not decide it)"}
 	maxLen, bound := 2, 1
 	if c.Thorough() {
 		maxLen, bound = 3, 2
+	}
+	if strings.HasSuffix(c.Job, ".race") {
+		// the race detector build: unsynchronised accesses between two concurrent pings (shared scratch state) do not show
+		// as interleavings under the cooperative scheduler, they show as data races on the explored schedules
+		maxLen, bound = 1, 1
 	}
 	scs := c19Scenarios(maxLen)
 	for i, sc := range scs {
@@ -411,7 +416,9 @@ func c19Run(c *core.Ctx, args []string) {
 
 func init() {
 	Registry["C19"] = &Driver{
-		Plan:   func(tier string) []core.Job { return shardJobs("ping", 16, false, 1700) },
+		Plan: func(tier string) []core.Job {
+			return append(shardJobs("ping", 12, false, 1700), shardJobs("ping.race", 4, true, 1700)...)
+		},
 		Run:    c19Run,
 		Replay: concReplayer(func() []*concScenario { return c19Scenarios(3) }),
 	}
